@@ -3,7 +3,7 @@ from mc.props import _cellprop
 from mc.props import _masterprop
 from mc.worlds import cellcfg, cellmon, mastercfg, mastermon
 
-BUDGET = {'quick': 240, 'thorough': 2400}
+BUDGET = {'quick': 600, 'thorough': 2400}
 DAY = 24 * 3600
 
 
